@@ -7,9 +7,10 @@ CONSTANTS
   ConsumerSet = {"c1", "c2"}
   Coords = {"A", "X"}
   OpKinds = {"CreateStream", "DeleteStream", "Pause", "Resume", "SetReadonly", "ShrinkISR", "ExpandISR", "ChangeLeader", "PublishActivity", "CreateGroup", "JoinGroup", "LeaveGroup", "ChangeCoordinator"}
-  MaxOps = 3
+  MaxOps = 2
   MaxSnaps = 1
   MaxRestarts = 1
-INVARIANTS NoTombLive GroupsFine EpochsFine
+INVARIANTS NoTombLive GroupsFine EpochsFine FlagsConsistent
+
 
 CHECK_DEADLOCK FALSE
